@@ -23,7 +23,7 @@ from vf import fgen, genmodels, layout, observe  # noqa: E402
 PID = "C04"
 
 DEFAULTS = [("none", "early"), ("public", "early"), ("public", "late"), ("private", "early"), ("private", "late")]
-MODULE_KINDS = ["variable", "parameter", "type", "subroutine", "function", "generic", "abstract", "operator", "typector"]
+MODULE_KINDS = ["variable", "parameter", "type", "subroutine", "function", "generic", "abstract", "operator", "typector", "generic2", "genspec"]
 
 
 def module_cells():
@@ -109,13 +109,31 @@ def render_module(mname, cells, default, placement, st: fgen.Style, rng: random.
             s1 = f"{mname}_gs{n}"
             decl_blocks.append([f"{kw('interface')} {nm}", f"{kw('module')} {kw('procedure')} {s1}", f"{kw('end')} {kw('interface')}"])
             contains += [f"{kw('subroutine')} {s1}(x)", f"{kw('integer')} :: x", st.kw("end") + " " + kw("subroutine")]
+        elif k == "generic2":
+            # one generic name given in two interface blocks: an access statement names both
+            s1, s2 = f"{mname}_ga{n}", f"{mname}_gb{n}"
+            decl_blocks.append([f"{kw('interface')} {nm}", f"{kw('module')} {kw('procedure')} {s1}", f"{kw('end')} {kw('interface')}",
+                                f"{kw('interface')} {st.nm(nm)}", f"{kw('module')} {kw('procedure')} {s2}", f"{kw('end')} {kw('interface')}"])
+            contains += [f"{kw('subroutine')} {s1}(x)", f"{kw('integer')} :: x", st.kw("end") + " " + kw("subroutine"),
+                         f"{kw('subroutine')} {s2}(x)", f"{kw('real')} :: x", st.kw("end") + " " + kw("subroutine")]
+            names[nm.lower() + "@interface"] = cell
+        elif k == "genspec":
+            # a generic named like one of its specific procedures
+            s2 = f"{mname}_gc{n}"
+            decl_blocks.append([f"{kw('interface')} {nm}", f"{kw('module')} {kw('procedure')} {st.nm(nm)}, {s2}", f"{kw('end')} {kw('interface')}"])
+            contains += [f"{kw('subroutine')} {nm}(x)", f"{kw('integer')} :: x", st.kw("end") + " " + kw("subroutine"),
+                         f"{kw('subroutine')} {s2}(x)", f"{kw('real')} :: x", st.kw("end") + " " + kw("subroutine")]
+            names[nm.lower() + "@interface"] = cell
         elif k == "abstract":
             decl_blocks.append([f"{kw('abstract')} {kw('interface')}", f"{kw('subroutine')} {nm}(x)", f"{kw('real')} :: x", f"{kw('end')} {kw('subroutine')}", f"{kw('end')} {kw('interface')}"])
         elif k == "operator":
             op = f".op{n}."
             ent_name = f"operator({op})"
             f1 = f"{mname}_of{n}"
-            decl_blocks.append([f"{kw('interface')} {kw('operator')}({op})", f"{kw('module')} {kw('procedure')} {f1}", f"{kw('end')} {kw('interface')}"])
+            # blanks inside a generic-spec are not significant; interface and access statement are spelt independently
+            spell = lambda: kw("operator") + ("" if st.canonical else rng.choice(["", "", " "])) + "(" + ("" if st.canonical else rng.choice(["", "", " "])) + op + ("" if st.canonical else rng.choice(["", "", " "])) + ")"  # noqa: E731
+            op_stmt_spelling = spell()
+            decl_blocks.append([f"{kw('interface')} {spell()}", f"{kw('module')} {kw('procedure')} {f1}", f"{kw('end')} {kw('interface')}"])
             contains += [f"{kw('integer')} {kw('function')} {f1}(a, b)", f"{kw('integer')}, {kw('intent')}(in) :: a, b", f"{f1} = a + b", st.kw("end") + " " + kw("function")]
         elif k in ("component", "binding"):
             tn = f"{mname}_t{n}"
@@ -144,7 +162,7 @@ def render_module(mname, cells, default, placement, st: fgen.Style, rng: random.
             ent_name = f"{tn}%{nm}"
         names[ent_name.lower()] = cell
         if cell["stmt"] != "none":
-            s = f"{kw(cell['stmt'])}{dc()}{st.nm(ent_name) if not ent_name.startswith('operator') else ent_name}"
+            s = f"{kw(cell['stmt'])}{dc()}{st.nm(ent_name) if not ent_name.startswith('operator') else op_stmt_spelling}"
             (before if cell["place"] == "before" else after).append(s)
     rng.shuffle(decl_blocks)
     rng.shuffle(before)
@@ -190,7 +208,8 @@ def observe_case(item):
         for p in list(m.functions) + list(m.subroutines) + list(getattr(m, "modfunctions", [])) + list(getattr(m, "modsubroutines", [])) + list(getattr(m, "modprocedures", [])):
             ents[p.name.lower()] = p.permission
         for it in m.interfaces:
-            ents[it.name.lower() + ("@interface" if it.name.lower() in ents else "")] = it.permission
+            iname = "".join(it.name.lower().split())
+            ents[iname + ("@interface" if iname in ents else "")] = it.permission
         for it in m.absinterfaces:
             ents[it.name.lower()] = it.permission
         perms[m.name.lower()] = ents
@@ -315,7 +334,7 @@ def main():
         if r["sample"] and len(run.samples) < 1:
             run.samples.append(r["sample"])
     run.nontrivial = {str(k) for k in allkeys}
-    total_cells = (len(module_cells()) + len([c for c in module_cells() if c["kind"] == "typector"]) + len(member_cells())) * len(DEFAULTS) + 4
+    total_cells = (len(module_cells()) + len([c for c in module_cells() if c["kind"] in ("typector", "generic2", "genspec")]) + len(member_cells())) * len(DEFAULTS) + 4
     run.extra["exhaustive"] = len(allkeys) >= total_cells
     run.extra["cells_in_product"] = total_cells
     run.extra["cells_covered"] = len(allkeys)
